@@ -20,7 +20,12 @@ use std::sync::atomic::{AtomicUsize, Ordering};
 
 use std::time::{Duration, Instant};
 
+#[cfg(not(feature = "verif-hooks"))]
 use std::collections::{HashMap, HashSet};
+#[cfg(feature = "verif-hooks")]
+use crate::verif::HashMap;
+#[cfg(feature = "verif-hooks")]
+use std::collections::HashSet;
 
 use byteorder::{BigEndian, ByteOrder};
 
